@@ -1,5 +1,5 @@
 // auto-generated: "lalrpop 0.23.1"
-// sha3: 8ebe8649e095eb81846d1151befad2b5b9d45d0907f38baae76714bd37f4fd6e
+// sha3: 48d79eac92faa6d02b0767efdebec899df7b8ceb503d91243bc3f2cb27323194
 use crate::rt::*;
 #[allow(unused_extern_crates)]
 extern crate lalrpop_util as __lalrpop_util;
@@ -10,7 +10,7 @@ extern crate alloc;
 
 #[rustfmt::skip]
 #[allow(explicit_outlives_requirements, non_snake_case, non_camel_case_types, unused_mut, unused_variables, unused_imports, unused_parens, clippy::needless_lifetimes, clippy::type_complexity, clippy::needless_return, clippy::too_many_arguments, clippy::match_single_binding, clippy::clone_on_copy, clippy::unit_arg)]
-mod __parse__S {
+mod __parse__N0 {
 
     use crate::rt::*;
     #[allow(unused_extern_crates)]
@@ -29,63 +29,51 @@ mod __parse__S {
     }
     const __ACTION: &[i8] = &[
         // State 0
-        5, 0, 0, 0,
+        0, 0, 4, 0, 0,
         // State 1
-        0, 0, 8, 7,
+        0, 0, 4, 0, 0,
         // State 2
-        0, 0, 0, 7,
+        0, 0, 0, 0, 2,
         // State 3
-        0, 0, 0, 0,
+        0, -3, 0, 0, -3,
         // State 4
-        0, 2, 0, 0,
+        0, 6, 0, 0, 2,
         // State 5
-        0, 0, 0, 0,
-        // State 6
-        0, 0, 0, 0,
-        // State 7
-        0, 3, 0, 0,
-        // State 8
-        0, 0, 0, 0,
+        0, -4, 0, 0, -4,
     ];
     fn __action(state: i8, integer: usize) -> i8 {
-        __ACTION[(state as usize) * 4 + integer]
+        __ACTION[(state as usize) * 5 + integer]
     }
     const __EOF_ACTION: &[i8] = &[
         // State 0
         0,
         // State 1
-        -7,
+        0,
         // State 2
-        -7,
+        -10,
         // State 3
-        -9,
+        -3,
         // State 4
         0,
         // State 5
-        -5,
-        // State 6
-        -8,
-        // State 7
-        0,
-        // State 8
-        -6,
+        -4,
     ];
     fn __goto(state: i8, nt: usize) -> i8 {
         match nt {
-            3 => 3,
-            4 => match state {
-                2 => 8,
-                _ => 5,
+            2 => match state {
+                1 => 4,
+                _ => 2,
             },
             _ => 0,
         }
     }
     #[allow(clippy::needless_raw_string_hashes)]
     const __TERMINAL: &[&str] = &[
-        r###""let""###,
-        r###""id""###,
-        r###""=""###,
-        r###"";""###,
+        r###""t0""###,
+        r###""t1""###,
+        r###""t2""###,
+        r###""t3""###,
+        r###""t4""###,
     ];
     fn __expected_tokens(__state: i8) -> alloc::vec::Vec<alloc::string::String> {
         __TERMINAL.iter().enumerate().filter_map(|(index, terminal)| {
@@ -152,7 +140,7 @@ mod __parse__S {
 
         #[inline]
         fn error_action(&self, state: i8) -> i8 {
-            __action(state, 4 - 1)
+            __action(state, 5 - 1)
         }
 
         #[inline]
@@ -222,6 +210,7 @@ mod __parse__S {
             Tok('b', _, _, _) if true => Some(1),
             Tok('c', _, _, _) if true => Some(2),
             Tok('d', _, _, _) if true => Some(3),
+            Tok('e', _, _, _) if true => Some(4),
             _ => None,
         }
     }
@@ -233,7 +222,7 @@ mod __parse__S {
     ) -> __Symbol<>
     {
         #[allow(clippy::manual_range_patterns)]match __token_index {
-            0 | 1 | 2 | 3 => __Symbol::Variant0(__token),
+            0 | 1 | 2 | 3 | 4 => __Symbol::Variant0(__token),
             _ => unreachable!(),
         }
     }
@@ -258,52 +247,58 @@ mod __parse__S {
             }
             2 => {
                 __state_machine::SimulatedReduce::Reduce {
-                    states_to_pop: 0,
+                    states_to_pop: 1,
                     nonterminal_produced: 2,
                 }
             }
             3 => {
                 __state_machine::SimulatedReduce::Reduce {
-                    states_to_pop: 2,
+                    states_to_pop: 4,
                     nonterminal_produced: 2,
                 }
             }
             4 => {
                 __state_machine::SimulatedReduce::Reduce {
-                    states_to_pop: 3,
+                    states_to_pop: 2,
                     nonterminal_produced: 3,
                 }
             }
             5 => {
                 __state_machine::SimulatedReduce::Reduce {
-                    states_to_pop: 5,
+                    states_to_pop: 2,
                     nonterminal_produced: 3,
                 }
             }
             6 => {
                 __state_machine::SimulatedReduce::Reduce {
+                    states_to_pop: 1,
+                    nonterminal_produced: 3,
+                }
+            }
+            7 => {
+                __state_machine::SimulatedReduce::Reduce {
                     states_to_pop: 0,
                     nonterminal_produced: 4,
                 }
             }
-            7 => {
+            8 => {
                 __state_machine::SimulatedReduce::Reduce {
                     states_to_pop: 1,
                     nonterminal_produced: 4,
                 }
             }
-            8 => __state_machine::SimulatedReduce::Accept,
+            9 => __state_machine::SimulatedReduce::Accept,
             _ => panic!("invalid reduction index {__reduce_index}")
         }
     }
-    pub struct SParser {
+    pub struct N0Parser {
         _priv: (),
     }
 
-    impl Default for SParser { fn default() -> Self { Self::new() } }
-    impl SParser {
-        pub fn new() -> SParser {
-            SParser {
+    impl Default for N0Parser { fn default() -> Self { Self::new() } }
+    impl N0Parser {
+        pub fn new() -> N0Parser {
+            N0Parser {
                 _priv: (),
             }
         }
@@ -394,7 +389,10 @@ mod __parse__S {
                 __reduce7(__lookahead_start, __symbols, core::marker::PhantomData::<()>)
             }
             8 => {
-                // __S = S => ActionFn(0);
+                __reduce8(__lookahead_start, __symbols, core::marker::PhantomData::<()>)
+            }
+            9 => {
+                // __N0 = N0 => ActionFn(0);
                 let __sym0 = __pop_Variant2(__symbols);
                 let __start = __sym0.0.clone();
                 let __end = __sym0.2.clone();
@@ -451,10 +449,10 @@ mod __parse__S {
         _: core::marker::PhantomData<()>,
     ) -> (usize, usize)
     {
-        // @L =  => ActionFn(7);
+        // @L =  => ActionFn(9);
         let __start = __lookahead_start.cloned().or_else(|| __symbols.last().map(|s| s.2.clone())).unwrap_or_default();
         let __end = __start.clone();
-        let __nt = super::__action7::<>(&__start, &__end);
+        let __nt = super::__action9::<>(&__start, &__end);
         __symbols.push((__start, __Symbol::Variant1(__nt), __end));
         (0, 0)
     }
@@ -465,10 +463,10 @@ mod __parse__S {
         _: core::marker::PhantomData<()>,
     ) -> (usize, usize)
     {
-        // @R =  => ActionFn(6);
+        // @R =  => ActionFn(8);
         let __start = __lookahead_start.cloned().or_else(|| __symbols.last().map(|s| s.2.clone())).unwrap_or_default();
         let __end = __start.clone();
-        let __nt = super::__action6::<>(&__start, &__end);
+        let __nt = super::__action8::<>(&__start, &__end);
         __symbols.push((__start, __Symbol::Variant1(__nt), __end));
         (0, 1)
     }
@@ -479,12 +477,13 @@ mod __parse__S {
         _: core::marker::PhantomData<()>,
     ) -> (usize, usize)
     {
-        // Init =  => ActionFn(13);
-        let __start = __lookahead_start.cloned().or_else(|| __symbols.last().map(|s| s.2.clone())).unwrap_or_default();
-        let __end = __start.clone();
-        let __nt = super::__action13::<>(&__start, &__end);
+        // N0 = "t2" => ActionFn(17);
+        let __sym0 = __pop_Variant0(__symbols);
+        let __start = __sym0.0.clone();
+        let __end = __sym0.2.clone();
+        let __nt = super::__action17::<>(__sym0);
         __symbols.push((__start, __Symbol::Variant2(__nt), __end));
-        (0, 2)
+        (1, 2)
     }
     fn __reduce3<
     >(
@@ -493,15 +492,17 @@ mod __parse__S {
         _: core::marker::PhantomData<()>,
     ) -> (usize, usize)
     {
-        // Init = "=", "id" => ActionFn(14);
-        assert!(__symbols.len() >= 2);
+        // N0 = N0, "t4", N0, "t1" => ActionFn(18);
+        assert!(__symbols.len() >= 4);
+        let __sym3 = __pop_Variant0(__symbols);
+        let __sym2 = __pop_Variant2(__symbols);
         let __sym1 = __pop_Variant0(__symbols);
-        let __sym0 = __pop_Variant0(__symbols);
+        let __sym0 = __pop_Variant2(__symbols);
         let __start = __sym0.0.clone();
-        let __end = __sym1.2.clone();
-        let __nt = super::__action14::<>(__sym0, __sym1);
+        let __end = __sym3.2.clone();
+        let __nt = super::__action18::<>(__sym0, __sym1, __sym2, __sym3);
         __symbols.push((__start, __Symbol::Variant2(__nt), __end));
-        (2, 2)
+        (4, 2)
     }
     fn __reduce4<
     >(
@@ -510,16 +511,15 @@ mod __parse__S {
         _: core::marker::PhantomData<()>,
     ) -> (usize, usize)
     {
-        // S = "let", "id", Semi => ActionFn(18);
-        assert!(__symbols.len() >= 3);
-        let __sym2 = __pop_Variant2(__symbols);
-        let __sym1 = __pop_Variant0(__symbols);
+        // N1 = "t2", N0 => ActionFn(19);
+        assert!(__symbols.len() >= 2);
+        let __sym1 = __pop_Variant2(__symbols);
         let __sym0 = __pop_Variant0(__symbols);
         let __start = __sym0.0.clone();
-        let __end = __sym2.2.clone();
-        let __nt = super::__action18::<>(__sym0, __sym1, __sym2);
+        let __end = __sym1.2.clone();
+        let __nt = super::__action19::<>(__sym0, __sym1);
         __symbols.push((__start, __Symbol::Variant2(__nt), __end));
-        (3, 3)
+        (2, 3)
     }
     fn __reduce5<
     >(
@@ -528,18 +528,15 @@ mod __parse__S {
         _: core::marker::PhantomData<()>,
     ) -> (usize, usize)
     {
-        // S = "let", "id", "=", "id", Semi => ActionFn(19);
-        assert!(__symbols.len() >= 5);
-        let __sym4 = __pop_Variant2(__symbols);
-        let __sym3 = __pop_Variant0(__symbols);
-        let __sym2 = __pop_Variant0(__symbols);
-        let __sym1 = __pop_Variant0(__symbols);
+        // N1 = "t4", N1 => ActionFn(20);
+        assert!(__symbols.len() >= 2);
+        let __sym1 = __pop_Variant2(__symbols);
         let __sym0 = __pop_Variant0(__symbols);
         let __start = __sym0.0.clone();
-        let __end = __sym4.2.clone();
-        let __nt = super::__action19::<>(__sym0, __sym1, __sym2, __sym3, __sym4);
+        let __end = __sym1.2.clone();
+        let __nt = super::__action20::<>(__sym0, __sym1);
         __symbols.push((__start, __Symbol::Variant2(__nt), __end));
-        (5, 3)
+        (2, 3)
     }
     fn __reduce6<
     >(
@@ -548,12 +545,13 @@ mod __parse__S {
         _: core::marker::PhantomData<()>,
     ) -> (usize, usize)
     {
-        // Semi =  => ActionFn(16);
-        let __start = __lookahead_start.cloned().or_else(|| __symbols.last().map(|s| s.2.clone())).unwrap_or_default();
-        let __end = __start.clone();
-        let __nt = super::__action16::<>(&__start, &__end);
+        // N1 = N1 => ActionFn(21);
+        let __sym0 = __pop_Variant2(__symbols);
+        let __start = __sym0.0.clone();
+        let __end = __sym0.2.clone();
+        let __nt = super::__action21::<>(__sym0);
         __symbols.push((__start, __Symbol::Variant2(__nt), __end));
-        (0, 4)
+        (1, 3)
     }
     fn __reduce7<
     >(
@@ -562,17 +560,31 @@ mod __parse__S {
         _: core::marker::PhantomData<()>,
     ) -> (usize, usize)
     {
-        // Semi = ";" => ActionFn(17);
+        // N2 =  => ActionFn(22);
+        let __start = __lookahead_start.cloned().or_else(|| __symbols.last().map(|s| s.2.clone())).unwrap_or_default();
+        let __end = __start.clone();
+        let __nt = super::__action22::<>(&__start, &__end);
+        __symbols.push((__start, __Symbol::Variant2(__nt), __end));
+        (0, 4)
+    }
+    fn __reduce8<
+    >(
+        __lookahead_start: Option<&i64>,
+        __symbols: &mut alloc::vec::Vec<(i64,__Symbol<>,i64)>,
+        _: core::marker::PhantomData<()>,
+    ) -> (usize, usize)
+    {
+        // N2 = "t2" => ActionFn(23);
         let __sym0 = __pop_Variant0(__symbols);
         let __start = __sym0.0.clone();
         let __end = __sym0.2.clone();
-        let __nt = super::__action17::<>(__sym0);
+        let __nt = super::__action23::<>(__sym0);
         __symbols.push((__start, __Symbol::Variant2(__nt), __end));
         (1, 4)
     }
 }
 #[allow(unused_imports)]
-pub use self::__parse__S::SParser;
+pub use self::__parse__N0::N0Parser;
 
 #[allow(clippy::too_many_arguments, clippy::needless_lifetimes, clippy::just_underscores_and_digits, clippy::extra_unused_type_parameters)]
 fn __action0<
@@ -588,23 +600,24 @@ fn __action1<
 >(
     (_, l, _): (i64, i64, i64),
     (_, c0, _): (i64, Tok, i64),
-    (_, c1, _): (i64, Tok, i64),
-    (_, c2, _): (i64, Tree, i64),
-    (_, c3, _): (i64, Tree, i64),
     (_, r, _): (i64, i64, i64),
 ) -> Tree
 {
-    node("S#0", l, r, vec![Tree::from(c0), Tree::from(c1), Tree::from(c2), Tree::from(c3)])
+    node("N0#0", l, r, vec![Tree::from(c0)])
 }
 
 #[allow(clippy::too_many_arguments, clippy::needless_lifetimes, clippy::just_underscores_and_digits, clippy::extra_unused_type_parameters)]
 fn __action2<
 >(
     (_, l, _): (i64, i64, i64),
+    (_, c0, _): (i64, Tree, i64),
+    (_, c1, _): (i64, Tok, i64),
+    (_, c2, _): (i64, Tree, i64),
+    (_, c3, _): (i64, Tok, i64),
     (_, r, _): (i64, i64, i64),
 ) -> Tree
 {
-    node("Init#0", l, r, vec![])
+    node("N0#1", l, r, vec![Tree::from(c0), Tree::from(c1), Tree::from(c2), Tree::from(c3)])
 }
 
 #[allow(clippy::too_many_arguments, clippy::needless_lifetimes, clippy::just_underscores_and_digits, clippy::extra_unused_type_parameters)]
@@ -612,36 +625,63 @@ fn __action3<
 >(
     (_, l, _): (i64, i64, i64),
     (_, c0, _): (i64, Tok, i64),
-    (_, c1, _): (i64, Tok, i64),
+    (_, c1, _): (i64, Tree, i64),
     (_, r, _): (i64, i64, i64),
 ) -> Tree
 {
-    node("Init#1", l, r, vec![Tree::from(c0), Tree::from(c1)])
+    node("N1#0", l, r, vec![Tree::from(c0), Tree::from(c1)])
 }
 
 #[allow(clippy::too_many_arguments, clippy::needless_lifetimes, clippy::just_underscores_and_digits, clippy::extra_unused_type_parameters)]
 fn __action4<
 >(
     (_, l, _): (i64, i64, i64),
+    (_, c0, _): (i64, Tok, i64),
+    (_, pR1, _): (i64, i64, i64),
+    (_, c1, _): (i64, Tree, i64),
     (_, r, _): (i64, i64, i64),
 ) -> Tree
 {
-    node("Semi#0", l, r, vec![])
+    { probe("N1#1", 1, 'R', pR1); node("N1#1", l, r, vec![Tree::from(c0), Tree::from(c1)]) }
 }
 
 #[allow(clippy::too_many_arguments, clippy::needless_lifetimes, clippy::just_underscores_and_digits, clippy::extra_unused_type_parameters)]
 fn __action5<
 >(
     (_, l, _): (i64, i64, i64),
-    (_, c0, _): (i64, Tok, i64),
+    (_, c0, _): (i64, Tree, i64),
+    (_, pR1, _): (i64, i64, i64),
     (_, r, _): (i64, i64, i64),
 ) -> Tree
 {
-    node("Semi#1", l, r, vec![Tree::from(c0)])
+    { probe("N1#2", 1, 'R', pR1); node("N1#2", l, r, vec![Tree::from(c0)]) }
+}
+
+#[allow(clippy::too_many_arguments, clippy::needless_lifetimes, clippy::just_underscores_and_digits, clippy::extra_unused_type_parameters)]
+fn __action6<
+>(
+    (_, l, _): (i64, i64, i64),
+    (_, pR0, _): (i64, i64, i64),
+    (_, r, _): (i64, i64, i64),
+) -> Tree
+{
+    { probe("N2#0", 0, 'R', pR0); node("N2#0", l, r, vec![]) }
+}
+
+#[allow(clippy::too_many_arguments, clippy::needless_lifetimes, clippy::just_underscores_and_digits, clippy::extra_unused_type_parameters)]
+fn __action7<
+>(
+    (_, l, _): (i64, i64, i64),
+    (_, c0, _): (i64, Tok, i64),
+    (_, pL1, _): (i64, i64, i64),
+    (_, r, _): (i64, i64, i64),
+) -> Tree
+{
+    { probe("N2#1", 1, 'L', pL1); node("N2#1", l, r, vec![Tree::from(c0)]) }
 }
 
 #[allow(clippy::needless_lifetimes, clippy::clone_on_copy)]
-fn __action6<
+fn __action8<
 >(
     __lookbehind: &i64,
     __lookahead: &i64,
@@ -651,7 +691,7 @@ fn __action6<
 }
 
 #[allow(clippy::needless_lifetimes, clippy::clone_on_copy)]
-fn __action7<
+fn __action9<
 >(
     __lookbehind: &i64,
     __lookahead: &i64,
@@ -662,14 +702,40 @@ fn __action7<
 
 #[allow(clippy::too_many_arguments, clippy::needless_lifetimes,
     clippy::just_underscores_and_digits, clippy::clone_on_copy, clippy::unit_arg)]
-fn __action8<
+fn __action10<
 >(
-    __0: (i64, i64, i64),
+    __0: (i64, Tok, i64),
+    __1: (i64, i64, i64),
 ) -> Tree
 {
     let __start0 = __0.0.clone();
     let __end0 = __0.0.clone();
-    let __temp0 = __action7(
+    let __temp0 = __action9(
+        &__start0,
+        &__end0,
+    );
+    let __temp0 = (__start0, __temp0, __end0);
+    __action1(
+        __temp0,
+        __0,
+        __1,
+    )
+}
+
+#[allow(clippy::too_many_arguments, clippy::needless_lifetimes,
+    clippy::just_underscores_and_digits, clippy::clone_on_copy, clippy::unit_arg)]
+fn __action11<
+>(
+    __0: (i64, Tree, i64),
+    __1: (i64, Tok, i64),
+    __2: (i64, Tree, i64),
+    __3: (i64, Tok, i64),
+    __4: (i64, i64, i64),
+) -> Tree
+{
+    let __start0 = __0.0.clone();
+    let __end0 = __0.0.clone();
+    let __temp0 = __action9(
         &__start0,
         &__end0,
     );
@@ -677,21 +743,25 @@ fn __action8<
     __action2(
         __temp0,
         __0,
+        __1,
+        __2,
+        __3,
+        __4,
     )
 }
 
 #[allow(clippy::too_many_arguments, clippy::needless_lifetimes,
     clippy::just_underscores_and_digits, clippy::clone_on_copy, clippy::unit_arg)]
-fn __action9<
+fn __action12<
 >(
     __0: (i64, Tok, i64),
-    __1: (i64, Tok, i64),
+    __1: (i64, Tree, i64),
     __2: (i64, i64, i64),
 ) -> Tree
 {
     let __start0 = __0.0.clone();
     let __end0 = __0.0.clone();
-    let __temp0 = __action7(
+    let __temp0 = __action9(
         &__start0,
         &__end0,
     );
@@ -706,42 +776,17 @@ fn __action9<
 
 #[allow(clippy::too_many_arguments, clippy::needless_lifetimes,
     clippy::just_underscores_and_digits, clippy::clone_on_copy, clippy::unit_arg)]
-fn __action10<
+fn __action13<
 >(
     __0: (i64, Tok, i64),
-    __1: (i64, Tok, i64),
+    __1: (i64, i64, i64),
     __2: (i64, Tree, i64),
-    __3: (i64, Tree, i64),
-    __4: (i64, i64, i64),
+    __3: (i64, i64, i64),
 ) -> Tree
 {
     let __start0 = __0.0.clone();
     let __end0 = __0.0.clone();
-    let __temp0 = __action7(
-        &__start0,
-        &__end0,
-    );
-    let __temp0 = (__start0, __temp0, __end0);
-    __action1(
-        __temp0,
-        __0,
-        __1,
-        __2,
-        __3,
-        __4,
-    )
-}
-
-#[allow(clippy::too_many_arguments, clippy::needless_lifetimes,
-    clippy::just_underscores_and_digits, clippy::clone_on_copy, clippy::unit_arg)]
-fn __action11<
->(
-    __0: (i64, i64, i64),
-) -> Tree
-{
-    let __start0 = __0.0.clone();
-    let __end0 = __0.0.clone();
-    let __temp0 = __action7(
+    let __temp0 = __action9(
         &__start0,
         &__end0,
     );
@@ -749,20 +794,24 @@ fn __action11<
     __action4(
         __temp0,
         __0,
+        __1,
+        __2,
+        __3,
     )
 }
 
 #[allow(clippy::too_many_arguments, clippy::needless_lifetimes,
     clippy::just_underscores_and_digits, clippy::clone_on_copy, clippy::unit_arg)]
-fn __action12<
+fn __action14<
 >(
-    __0: (i64, Tok, i64),
+    __0: (i64, Tree, i64),
     __1: (i64, i64, i64),
+    __2: (i64, i64, i64),
 ) -> Tree
 {
     let __start0 = __0.0.clone();
     let __end0 = __0.0.clone();
-    let __temp0 = __action7(
+    let __temp0 = __action9(
         &__start0,
         &__end0,
     );
@@ -771,48 +820,7 @@ fn __action12<
         __temp0,
         __0,
         __1,
-    )
-}
-
-#[allow(clippy::too_many_arguments, clippy::needless_lifetimes,
-    clippy::just_underscores_and_digits, clippy::clone_on_copy, clippy::unit_arg)]
-fn __action13<
->(
-    __lookbehind: &i64,
-    __lookahead: &i64,
-) -> Tree
-{
-    let __start0 = __lookbehind.clone();
-    let __end0 = __lookahead.clone();
-    let __temp0 = __action6(
-        &__start0,
-        &__end0,
-    );
-    let __temp0 = (__start0, __temp0, __end0);
-    __action8(
-        __temp0,
-    )
-}
-
-#[allow(clippy::too_many_arguments, clippy::needless_lifetimes,
-    clippy::just_underscores_and_digits, clippy::clone_on_copy, clippy::unit_arg)]
-fn __action14<
->(
-    __0: (i64, Tok, i64),
-    __1: (i64, Tok, i64),
-) -> Tree
-{
-    let __start0 = __1.2.clone();
-    let __end0 = __1.2.clone();
-    let __temp0 = __action6(
-        &__start0,
-        &__end0,
-    );
-    let __temp0 = (__start0, __temp0, __end0);
-    __action9(
-        __0,
-        __1,
-        __temp0,
+        __2,
     )
 }
 
@@ -820,25 +828,21 @@ fn __action14<
     clippy::just_underscores_and_digits, clippy::clone_on_copy, clippy::unit_arg)]
 fn __action15<
 >(
-    __0: (i64, Tok, i64),
-    __1: (i64, Tok, i64),
-    __2: (i64, Tree, i64),
-    __3: (i64, Tree, i64),
+    __0: (i64, i64, i64),
+    __1: (i64, i64, i64),
 ) -> Tree
 {
-    let __start0 = __3.2.clone();
-    let __end0 = __3.2.clone();
-    let __temp0 = __action6(
+    let __start0 = __0.0.clone();
+    let __end0 = __0.0.clone();
+    let __temp0 = __action9(
         &__start0,
         &__end0,
     );
     let __temp0 = (__start0, __temp0, __end0);
-    __action10(
+    __action6(
+        __temp0,
         __0,
         __1,
-        __2,
-        __3,
-        __temp0,
     )
 }
 
@@ -846,19 +850,29 @@ fn __action15<
     clippy::just_underscores_and_digits, clippy::clone_on_copy, clippy::unit_arg)]
 fn __action16<
 >(
-    __lookbehind: &i64,
-    __lookahead: &i64,
+    __0: (i64, Tok, i64),
+    __1: (i64, i64, i64),
 ) -> Tree
 {
-    let __start0 = __lookbehind.clone();
-    let __end0 = __lookahead.clone();
-    let __temp0 = __action6(
+    let __start0 = __0.0.clone();
+    let __end0 = __0.0.clone();
+    let __start1 = __0.2.clone();
+    let __end1 = __1.0.clone();
+    let __temp0 = __action9(
         &__start0,
         &__end0,
     );
     let __temp0 = (__start0, __temp0, __end0);
-    __action11(
+    let __temp1 = __action9(
+        &__start1,
+        &__end1,
+    );
+    let __temp1 = (__start1, __temp1, __end1);
+    __action7(
         __temp0,
+        __0,
+        __temp1,
+        __1,
     )
 }
 
@@ -871,12 +885,12 @@ fn __action17<
 {
     let __start0 = __0.2.clone();
     let __end0 = __0.2.clone();
-    let __temp0 = __action6(
+    let __temp0 = __action8(
         &__start0,
         &__end0,
     );
     let __temp0 = (__start0, __temp0, __end0);
-    __action12(
+    __action10(
         __0,
         __temp0,
     )
@@ -886,23 +900,25 @@ fn __action17<
     clippy::just_underscores_and_digits, clippy::clone_on_copy, clippy::unit_arg)]
 fn __action18<
 >(
-    __0: (i64, Tok, i64),
+    __0: (i64, Tree, i64),
     __1: (i64, Tok, i64),
     __2: (i64, Tree, i64),
+    __3: (i64, Tok, i64),
 ) -> Tree
 {
-    let __start0 = __1.2.clone();
-    let __end0 = __2.0.clone();
-    let __temp0 = __action13(
+    let __start0 = __3.2.clone();
+    let __end0 = __3.2.clone();
+    let __temp0 = __action8(
         &__start0,
         &__end0,
     );
     let __temp0 = (__start0, __temp0, __end0);
-    __action15(
+    __action11(
         __0,
         __1,
-        __temp0,
         __2,
+        __3,
+        __temp0,
     )
 }
 
@@ -911,24 +927,126 @@ fn __action18<
 fn __action19<
 >(
     __0: (i64, Tok, i64),
-    __1: (i64, Tok, i64),
-    __2: (i64, Tok, i64),
-    __3: (i64, Tok, i64),
-    __4: (i64, Tree, i64),
+    __1: (i64, Tree, i64),
 ) -> Tree
 {
-    let __start0 = __2.0.clone();
-    let __end0 = __3.2.clone();
-    let __temp0 = __action14(
-        __2,
-        __3,
+    let __start0 = __1.2.clone();
+    let __end0 = __1.2.clone();
+    let __temp0 = __action8(
+        &__start0,
+        &__end0,
     );
     let __temp0 = (__start0, __temp0, __end0);
-    __action15(
+    __action12(
         __0,
         __1,
         __temp0,
-        __4,
+    )
+}
+
+#[allow(clippy::too_many_arguments, clippy::needless_lifetimes,
+    clippy::just_underscores_and_digits, clippy::clone_on_copy, clippy::unit_arg)]
+fn __action20<
+>(
+    __0: (i64, Tok, i64),
+    __1: (i64, Tree, i64),
+) -> Tree
+{
+    let __start0 = __0.2.clone();
+    let __end0 = __1.0.clone();
+    let __start1 = __1.2.clone();
+    let __end1 = __1.2.clone();
+    let __temp0 = __action8(
+        &__start0,
+        &__end0,
+    );
+    let __temp0 = (__start0, __temp0, __end0);
+    let __temp1 = __action8(
+        &__start1,
+        &__end1,
+    );
+    let __temp1 = (__start1, __temp1, __end1);
+    __action13(
+        __0,
+        __temp0,
+        __1,
+        __temp1,
+    )
+}
+
+#[allow(clippy::too_many_arguments, clippy::needless_lifetimes,
+    clippy::just_underscores_and_digits, clippy::clone_on_copy, clippy::unit_arg)]
+fn __action21<
+>(
+    __0: (i64, Tree, i64),
+) -> Tree
+{
+    let __start0 = __0.2.clone();
+    let __end0 = __0.2.clone();
+    let __start1 = __0.2.clone();
+    let __end1 = __0.2.clone();
+    let __temp0 = __action8(
+        &__start0,
+        &__end0,
+    );
+    let __temp0 = (__start0, __temp0, __end0);
+    let __temp1 = __action8(
+        &__start1,
+        &__end1,
+    );
+    let __temp1 = (__start1, __temp1, __end1);
+    __action14(
+        __0,
+        __temp0,
+        __temp1,
+    )
+}
+
+#[allow(clippy::too_many_arguments, clippy::needless_lifetimes,
+    clippy::just_underscores_and_digits, clippy::clone_on_copy, clippy::unit_arg)]
+fn __action22<
+>(
+    __lookbehind: &i64,
+    __lookahead: &i64,
+) -> Tree
+{
+    let __start0 = __lookbehind.clone();
+    let __end0 = __lookahead.clone();
+    let __start1 = __lookbehind.clone();
+    let __end1 = __lookahead.clone();
+    let __temp0 = __action8(
+        &__start0,
+        &__end0,
+    );
+    let __temp0 = (__start0, __temp0, __end0);
+    let __temp1 = __action8(
+        &__start1,
+        &__end1,
+    );
+    let __temp1 = (__start1, __temp1, __end1);
+    __action15(
+        __temp0,
+        __temp1,
+    )
+}
+
+#[allow(clippy::too_many_arguments, clippy::needless_lifetimes,
+    clippy::just_underscores_and_digits, clippy::clone_on_copy, clippy::unit_arg)]
+fn __action23<
+>(
+    __0: (i64, Tok, i64),
+) -> Tree
+{
+    let __start0 = __0.2.clone();
+    let __end0 = __0.2.clone();
+    let __temp0 = __action8(
+        &__start0,
+        &__end0,
+    );
+    let __temp0 = (__start0, __temp0, __end0);
+    __action16(
+        __0,
+        __temp0,
     )
 }
 
